@@ -388,6 +388,14 @@ ScriptVariable::ScriptVariable(ScriptVariable&& variable)
     , type(variable.type)
 {
     variable.type = variableType_e::None;
+
+    if (type == variableType_e::Pointer)
+    {
+        // the pointer holder lists the address of every variable that shares it:
+        // register the new location and drop the moved-from one
+        m_data.pointerValue->add(this);
+        m_data.pointerValue->remove(&variable);
+    }
 }
 
 ScriptVariable::ScriptVariable(int32_t initialValue)
